@@ -10,7 +10,7 @@ mkdir -p /tmp/ev
 git -C /repo worktree add -q --detach "$wt" HEAD || exit 2
 cleanup() { git -C /repo worktree remove --force "$wt" 2>/dev/null; rm -rf "$vc"; }
 trap cleanup EXIT
-if ! git -C "$wt" apply "$patch"; then echo "PATCH-DOES-NOT-APPLY"; exit 2; fi
+if ! git -C "$wt" apply "$patch" 2>/dev/null && ! git -C "$wt" apply -3 "$patch"; then echo "PATCH-DOES-NOT-APPLY"; exit 2; fi
 ( cd "$wt" && go build ./... ) || { echo "MUTANT-DOES-NOT-BUILD"; exit 2; }
 if [ -z "$SKIP_TESTS" ]; then
   out=$(cd "$wt" && go test -vet=off -count=1 ./... 2>&1 | grep -v "^ok\|no test files")
